@@ -17,6 +17,7 @@ CONSTANTS
   FinalReset = FALSE
   CompRebases = FALSE
   MaxUser = 0
+  CompSkips = FALSE
 INVARIANT TypeOK
 INVARIANT EndStateNominal
 CHECK_DEADLOCK FALSE
